@@ -56,6 +56,15 @@ def gen_cases(tier, seed):
     for style in ("cached", "uncached", "mixed", "item"):
         for n in (5, 40):
             yield {"id": "rec-%s-%d" % (style, n), "kind": "rec", "style": style, "n": n}
+    # an exception object that outlives its evaluation: handled and stored by a formula, raised again later
+    j = 0
+    for depth in (1, 2, 3):
+        for target in ("b", "c", "d"):
+            for cached in (True, False):
+                for earlier in ("handled", "unhandled"):
+                    yield {"id": "st%d" % j, "kind": "stored", "depth": depth, "target": target, "cached": cached,
+                           "earlier": earlier}
+                    j += 1
     n = 420 if quick else 2500
     nl = 30 if quick else 400
     for i in range(n):
@@ -75,6 +84,8 @@ def run_case(case):
         return run_rec(case)
     if k == "witness":
         return run_witness(case)
+    if k == "stored":
+        return run_stored(case)
     raise ValueError(k)
 
 
@@ -292,6 +303,95 @@ def run_rec(case):
         except Exception:    # noqa
             pass
     return {"violations": vio, "counters": cnt, "nontrivial": True, "shape": "rec:%s:%d" % (style, n), "case": case}
+
+
+def run_stored(case):
+    """a formula handles a failure and keeps the exception object; a later evaluation raises that object
+    (as it is, or with its traceback removed).  The later failure is a failure like any other: FormulaError,
+    get_error() is the object, the traceback is the chain executing now."""
+    from ..mxutil import reset_session
+    reset_session()
+    vio, cnt = [], {"traceback_checks": 0, "line_checks": 0, "get_error_checks": 0, "stored_exception_checks": 0}
+    depth, target, cached = case["depth"], case["target"], case["cached"]
+
+    def V(kind, sig, **d):
+        vio.append({"kind": kind, "signature": sig, "detail": dict(d, case={k_: case[k_] for k_ in
+                                                                            ("depth", "target", "cached", "earlier")})})
+    m = mx.new_model("M")
+    S = m.new_space("S")
+    keep = []
+    S.keep = keep
+    S.new_cells("bad", formula="def bad(x):\n    raise ValueError('E%d' % x)")
+    prev = "bad"
+    for i in range(depth - 1):          # the original failure happens below a chain of formulas
+        S.new_cells("m%d" % i, formula="def m%d(x):\n    return %s(x) + 1" % (i, prev))
+        prev = "m%d" % i
+    S.new_cells("a", formula="def a(x):\n    try:\n        return %s(x)\n    except ValueError as e:\n"
+                             "        keep.append(e)\n        return 0" % prev, is_cached=cached)
+    S.new_cells("b", formula="def b(x):\n    raise keep[0]")
+    S.new_cells("c", formula="def c(x):\n    raise keep[0].with_traceback(None)")
+    S.new_cells("d", formula="def d(x):\n    return b(x) + 1")
+    if case["earlier"] == "handled":
+        if S.a(1) != 0 or len(keep) != 1:
+            raise Inconclusive("the handler did not store the exception")
+    else:
+        try:
+            getattr(S, prev)(1)
+        except FormulaError:
+            keep.append(mx.get_error())
+        if len(keep) != 1 or not isinstance(keep[0], ValueError):
+            raise Inconclusive("the unhandled failure did not give the exception")
+    stored = keep[0]
+    chain = {"b": ["b"], "c": ["c"], "d": ["d", "b"]}[target]
+    line = {"b": 2, "c": 2, "d": 2}
+    for attempt_no in (1, 2):           # the same again: the first failure must not change the second
+        cnt["stored_exception_checks"] += 1
+        try:
+            getattr(S, target)(1)
+        except FormulaError:
+            pass
+        except BaseException as e:      # noqa
+            V("raised", "failed evaluation raised %s instead of FormulaError (stored exception raised again)"
+              % type(e).__name__, attempt=attempt_no, msg=str(e)[:120])
+            break
+        else:
+            V("raised", "an evaluation that raises returned a value (stored exception raised again)")
+            break
+        cnt["get_error_checks"] += 1
+        if mx.get_error() is not stored:
+            V("get-error", "get_error() is not the exception of the most recent failure (stored exception)",
+              got=repr(mx.get_error())[:120])
+        tb = mx.get_traceback()
+        cnt["traceback_checks"] += 1
+        names = [nd.obj.name for nd, _ in tb]
+        if names != chain:
+            V("nodes", "traceback nodes differ from the executing chain (stored exception raised again)",
+              traceback=names, chain=chain, attempt=attempt_no)
+        else:
+            for (nd, ln), nm in zip(tb, chain):
+                cnt["line_checks"] += 1
+                if ln != line[nm]:
+                    V("line", "traceback line is not the line of the pending call (stored exception raised again)",
+                      element=nm, reported=ln, expected=line[nm])
+        for nm in chain:
+            if len(S.cells[nm]) != 0:
+                V("held", "an element of the failing chain holds a value (stored exception raised again)", element=nm)
+        if vio:
+            break
+    if not vio:
+        # later evaluations are not affected
+        try:
+            ok = S.a(2) == 0 and S.a(1) == 0
+        except BaseException as e:      # noqa
+            ok = False
+        if not ok:
+            V("later", "an evaluation after the failure does not give the values it gave before (stored exception)")
+    try:
+        m.close()
+    except Exception:    # noqa
+        pass
+    return {"violations": vio, "counters": cnt, "nontrivial": True,
+            "shape": "stored:%d:%s:%s:%s" % (depth, target, cached, case["earlier"]), "case": case}
 
 
 def run_witness(case):
